@@ -11,7 +11,7 @@ ID = "C12"
 OWNS = ("C12",)
 TOL = 1e-9
 RULE = (
-    "random bases (1-3 shells, l 0..4, generalized, cartesian and spherical; ERI cases l<=2) with points, charges, "
+    "random bases (1-3 shells, l 0..4, generalized, cartesian and spherical; ERI cases l<=2, plus one g shell with an s or p shell in every sixteenth case) with points, charges, "
     "nuclei, moment origin and density matrix; the whole system is moved by r -> R r + d with R one of the 48 signed "
     "axis permutations (all 48 enumerated across a run; the law is an exact index permutation for Cartesian shells) or a "
     "random proper/improper orthogonal matrix, |d| up to 10 bohr; starting frames with all atoms on the x axis are "
@@ -53,6 +53,10 @@ def gen_cases(tier, seed):
             ls[0] = 1 + i % 4
         if eri and sum((l + 1) * (l + 2) // 2 for l in ls) > 14:
             ls = ls[:2]
+        if eri and i % 16 == 15:
+            # one g shell in a repulsion array: the first angular momentum whose Cartesian components need more than
+            # one kind of angular normalisation constant beyond the largest exponent's (xxyy against xxxy against xxxx)
+            ls = [4, int(rng.integers(0, 2))] if (i // 16) % 2 == 0 else [int(rng.integers(0, 2)), 4]
         nsh = len(ls)
         pats = bases.type_patterns(nsh)
         tp = list(pats[(i // 2) % len(pats)])
@@ -60,6 +64,13 @@ def gen_cases(tier, seed):
         # relative position by 1e-7 relative (an artefact of the moved input, not of the library)
         shells, classes = bases.rand_basis(rng, ls, types=tp, emin=0.05, emax_fn=lambda l: 30.0, Kmax=2, Mmax=2, scale=1.0,
                                            geom=str(rng.choice(["coincident", "collinear", "coplanar", "general", "axis-zero", "far"])))
+        if eri and i % 16 == 15:
+            # exponents of one decade: with a g shell that contracts 0.05 and 30 the repulsion integrals themselves lose
+            # accuracy to the recursions' amplification (C04's known finding, there stated for l <= 3), which is not
+            # what covariance is about
+            for s_ in shells:
+                s_["e"] = [float(rng.uniform(0.3, 3.0)) for _ in s_["e"]]
+            classes = classes + ["eri-with-g-shell"]
         displaced = i % 4 == 1 and len(shells) >= 2
         if displaced:  # a finite-difference displaced copy; it is moved 20-80 bohr away from / towards the origin below
             dp, dcls = bases.displaced_pair(rng, shells[0]["l"], shells[1]["l"], emax=30.0)
